@@ -237,30 +237,16 @@ impl From<f64> for JsonValue {
 
 impl PartialEq for NumberValue {
     fn eq(&self, other: &Self) -> bool {
-        match self {
-            NumberValue::Float(me) => match other {
-                NumberValue::Float(other) => me == other,
-                NumberValue::Negative(other) => {
-                    me.fract() == 0.0 && *me <= 0.0 && (*other as f64) == *me
-                }
-                NumberValue::Positive(other) => {
-                    me.fract() == 0.0 && *me >= 0.0 && (*other as f64) == *me
-                }
-            },
-            NumberValue::Negative(me) => match other {
-                NumberValue::Float(other) => {
-                    other.fract() == 0.0 && *other <= 0.0 && (*me as f64) == *other
-                }
-                NumberValue::Negative(other) => me == other,
-                NumberValue::Positive(other) => *me == 0 && *other == 0,
-            },
-            NumberValue::Positive(me) => match other {
-                NumberValue::Float(other) => {
-                    other.fract() == 0.0 && *other >= 0.0 && (*me as f64) == *other
-                }
-                NumberValue::Positive(other) => me == other,
-                NumberValue::Negative(other) => *me == 0 && *other == 0,
-            },
+        match (self, other) {
+            (NumberValue::Float(me), NumberValue::Float(other)) => me == other,
+            // An integer is equal to a float only if it is exactly that number, a cast to f64 rounds integers above 2^53.
+            (NumberValue::Float(me), other) => {
+                cmp_integer_to_float(other.as_integer(), *me) == Ordering::Equal
+            }
+            (me, NumberValue::Float(other)) => {
+                cmp_integer_to_float(me.as_integer(), *other) == Ordering::Equal
+            }
+            (me, other) => me.as_integer() == other.as_integer(),
         }
     }
 }
